@@ -1104,11 +1104,32 @@ impl Formatter {
     }
 
     fn format_match_arm(&mut self, arm: &MatchArm) {
-        self.format_pattern(&arm.pattern.node);
         if let Some(guard) = &arm.guard {
+            // Only the `case pattern if guard:` form accepts a guard; `pattern if guard =>` does not parse.
+            self.writer.write("case ");
+            self.format_pattern(&arm.pattern.node);
             self.writer.write(" if ");
             self.format_expr(&guard.node);
+            self.writer.writeln(":");
+            self.writer.indent();
+            match &arm.body {
+                MatchBody::Expr(expr) => {
+                    self.format_expr(&expr.node);
+                    self.writer.newline();
+                }
+                MatchBody::Block(stmts) => {
+                    for stmt in stmts {
+                        self.format_statement(&stmt.node);
+                    }
+                    if stmts.is_empty() {
+                        self.writer.writeln("pass");
+                    }
+                }
+            }
+            self.writer.dedent();
+            return;
         }
+        self.format_pattern(&arm.pattern.node);
         self.writer.write(" =>");
         match &arm.body {
             MatchBody::Expr(expr) => {
